@@ -30,9 +30,8 @@ theorem After.finish_keep (A : After c inst dom s0 st s1 g old cur m new) {s5 : 
   have hwit : ∀ {lb : Min} {j : Nat}, Wit c inst s1 lb j → Wit c inst s5 lb j :=
     fun h => A.wit P hg5 rfl rfl hv h
   constructor
-  · refine ⟨?_, ?_, ?_, A.popCo P, ?_, ?_, ?_, ?_, ?_, ?_, ?_, ?_, ?_⟩
+  · refine ⟨?_, ?_, A.popCo P, ?_, ?_, ?_, ?_, ?_, ?_, ?_, ?_, ?_⟩
     · rw [P.oracle, P.oracleDefault, P.interrupted]; exact A.i1.quiet
-    · rw [P.cache]; exact A.i1.cacheOn
     · exact fun k v h => A.i1.cacheOK k v (P.inCache.mp h)
     · have := A.i1.nodup
       rw [A.g1] at this
@@ -100,7 +99,8 @@ theorem After.finish_keep (A : After c inst dom s0 st s1 g old cur m new) {s5 : 
         | inr h => rw [h.1] at htop; exact absurd htop.symm (top_ne_bot c)
       · have hn1 : s1.graph[i]? = some n := by rw [A.g1]; exact h1.2.2 _
         exact J.mono (fun j hj => hwit hj) (A.i1.just i n hn1 hd htop)
-  · refine ⟨⟨_, hg5, ?_⟩, A.popExt P, fun k v h => P.inCache.mpr (A.cacheExt k v h), ?_, ?_⟩
+  · refine ⟨⟨_, hg5, ?_⟩, A.popExt P, fun k v h => P.inCache.mpr (A.cacheExt k v h), ?_, ?_,
+      by rw [P.cache, A.step.cacheMode, A.L.cacheMode]⟩
     · intro n hn
       cases List.mem_cons.mp hn with
       | inl e => rw [e]; exact ⟨rfl, MinLe.refl _⟩
